@@ -256,6 +256,8 @@ SEEDS = {
              "a disconnected graph whose components are not contiguous in node order (0-2, 1-3): qubits permuted"),
  "S-C09-5": ("C09", "Graph.local_complementation adds missing neighbour edges to SELF instead of to the returned copy",
              "local complementation at a vertex with two non-adjacent neighbours: result lacks the edge and the input graph gains it"),
+ "S-C10-5": ("C10", "TimeReversedSolver._single_out_emitter puts the sign-correcting X of a time-reversed measurement on register `emitter_index` (a photon position) instead of `n_photon + emitter_index`; the tableau bookkeeping is unchanged",
+             "a target under which an emitter-only generator reaches a time-reversed measurement with phase -1: no labelled graph below 6 vertices, ~0.2 - 0.4 % of labelled 6 - 7 vertex graphs; the circuit then prepares a Pauli-flipped state (also breaks C02)"),
  "S-C11-5": ("C11", "CliffordTableau(StabilizerTableau) initialises its phase from the n-entry stabilizer phase BEFORE the conversion (falls back to zeros) and never takes the converted signs",
              "a stabilizer tableau with a negative sign, or a Y-type all-positive set whose reduction introduces one: all signs positive, another state"),
  "S-C12-5": ("C12", "OneQubitGateWrapper.unwrap() builds the noise-carrier Identity without reg_type (defaults to 'e')",
@@ -279,6 +281,7 @@ STRENGTHENED = {
  "S-C03-5": "emitter_sorted on pools of 6-vertex graphs most of which have a cut block with different real and GF(2) rank",
  "S-C06-5": "every second noisy circuit is compiled by both backends as the SAME object (no copy in between)",
  "S-C07-5": "9-12 qubit walks judged at group level (512-4096 elements) with partial traces dropping the last and 1-2 other positions",
+ "S-C10-5": "solver targets chosen by execution coverage of the deterministic solver (engine/covpool.py: 12,000 sampled labelled graphs, 29 kept, 6 of them reach the sign-correction branch); used by C10 and C02",
  "S-C12-5": "wrappers in edit histories carry one noise model (after / before gate) or a per-gate list half of the time",
  "S-C13-5": "a second target per history: the signed state a photon-only Clifford circuit with Pauli gates compiles to; metric and solver construction against it",
  "S-C15-5": "a pair of circuits fifteen gates apart compared by GED_full / GED_adaptive / direct in both orders",
